@@ -2,7 +2,7 @@
    specification facts), SortProofs.v (quicksort) and SeqTupleProofs.v (Tuple), with the capacity
    rules of Array_Reserve_More/Less taken from Generated.v. *)
 From Coq Require Import List Arith Bool ZArith Lia Permutation Sorted.
-From CelloV Require Import Generated SeqModels SeqProofs SortProofs SeqTupleProofs.
+From CelloV Require Import Generated SeqModels SeqProofs SortProofs SeqTupleProofs SeqErrorProofs.
 Import ListNotations.
 
 Section Main.
@@ -37,9 +37,30 @@ Section Main.
       apply refines_lift. intros s o Hs Hin _. apply array_step_refines_list; assumption.
     Qed.
 
+    (* ... and along every history: outside the contract the documented exception, nothing changes *)
+    Theorem array_refines_list_all : forall (ops : list (sop E)) (a : array E),
+      a_inv E a ->
+      refines_all E eqb ltb zero (array E) a_stepG (a_abs E) (a_inv E) KArray (fun _ _ => True) a ops.
+    Proof.
+      apply refines_all_lift.
+      - intros s o Hs Hin _. apply array_step_refines_list; assumption.
+      - intros s o Hs Hin. apply a_step_out_of_range; assumption.
+    Qed.
+
     (* Tuple: pointers pairwise distinct (finding F3 excluded), eq symmetric *)
     Hypothesis same_refl : forall x, same x x = true.
     Hypothesis eqb_sym : forall x y, eqb x y = eqb y x.
+
+    Theorem tuple_refines_list_all : forall (ops : list (sop E)) (t : tuple E),
+      t_inv E same t ->
+      refines_all E eqb ltb zero (tuple E) (t_step E eqb ltb same) (t_abs E) (t_inv E same) KTuple
+                  (t_fresh E same) t ops.
+    Proof.
+      apply refines_all_lift.
+      - intros s o Hs Hin Hfr.
+        apply (t_step_refines E eqb ltb same zero same_refl eqb_sym qsort_ok); assumption.
+      - intros s o Hs Hin. apply t_step_out_of_range; assumption.
+    Qed.
 
     Theorem tuple_refines_list : forall (ops : list (sop E)) (t : tuple E),
       t_inv E same t ->
@@ -60,6 +81,15 @@ Section Main.
     refines E eqb ltb zero (llist E) (l_step E eqb zero) (l_abs E) (l_inv E) KList (fun _ _ => True) l ops.
   Proof.
     apply refines_lift. intros s o Hs Hin _. apply l_step_refines; assumption.
+  Qed.
+
+  Theorem list_refines_list_all : forall (ops : list (sop E)) (l : llist E),
+    l_inv E l ->
+    refines_all E eqb ltb zero (llist E) (l_step E eqb zero) (l_abs E) (l_inv E) KList (fun _ _ => True) l ops.
+  Proof.
+    apply refines_all_lift.
+    - intros s o Hs Hin _. apply l_step_refines; assumption.
+    - intros s o Hs Hin. apply l_step_out_of_range; assumption.
   Qed.
 
   (* finding F3: the excluded case does fail *)
